@@ -45,6 +45,11 @@ def main():
         if rc != 0:
             print("PATCH DOES NOT APPLY to /repo HEAD:", out[-500:])
             print(json.dumps(res))
+            mp = os.path.join(VERIF, "seeded", seed_id, "meta.json")
+            if os.path.exists(mp):
+                meta = json.load(open(mp))
+                meta["no_longer_applicable"] = {"patch_applies": False}
+                json.dump(meta, open(mp, "w"), indent=1)
             return 2
         rc, out = sh("/venv/bin/python -m pytest -q -p no:cacheprovider 2>&1 | tail -1", cwd=wt, env=env)
         res["tests"] = out.strip()
@@ -86,6 +91,12 @@ def main():
             pass
         meta.update({"property": prop, "verified": {k: res[k] for k in ("demo_clean_rc", "tests", "demo_patched_rc")},
                      "our_checks": res.get("checks"), "ran": f"tools/seed_verify.py {prop} <seed> {seed_id} --tier {tier}"})
+        json.dump(meta, open(os.path.join(dst, "meta.json"), "w"), indent=1)
+    elif os.path.exists(os.path.join(dst, "meta.json")):
+        # a stored seed that can no longer be confirmed on the current /repo HEAD (the patch does not apply any more,
+        # or a later fix: commit made the change behaviour-preserving so that its demonstration passes)
+        meta = json.load(open(os.path.join(dst, "meta.json")))
+        meta["no_longer_applicable"] = {k: res.get(k) for k in ("patch_applies", "demo_clean_rc", "tests", "demo_patched_rc")}
         json.dump(meta, open(os.path.join(dst, "meta.json"), "w"), indent=1)
     print(json.dumps(res, indent=1))
     return 0
